@@ -23,6 +23,13 @@ def orderName : String := "bitvec::order::Lsb0"
 def ser (bs : Bits) : BitSeqRepr :=
   { order := orderName, headWidth := 64, headIndex := 0, bits := bs.length, data := Seq.intoRaw bs }
 
+/-- `Serialize for BitVec` of a vector whose live bits start `head` bits into its first word (only the unstable
+    `From<&BitSlice>` / `From<BitVec>` constructors make such owned sequences): `dead` are the `head` bits below the
+    live region, whatever they hold; the data words cover dead and live bits -/
+def serAt (dead : Bits) (bs : Bits) : BitSeqRepr :=
+  { order := orderName, headWidth := 64, headIndex := dead.length, bits := bs.length,
+    data := Seq.intoRaw (dead ++ bs) }
+
 /-- `Deserialize for BitVec`: validates the type name, head and length, then views the words -/
 def de (r : BitSeqRepr) : Except String Bits :=
   if r.order ≠ orderName then .error "order"
